@@ -128,7 +128,8 @@ def run(ctx):
         return False
 
     # ---- the builds and the distance-one pairs of the tier ---------------------------------------------------
-    base = [('arch', (4, '4.1'), 'none', False), ('debian', (3, '3.0'), 'none', False), ('ubuntu', (4, '4.0'), 'complain', True)]
+    base = [('arch', (4, '4.1'), 'none', False), ('debian', (3, '3.0'), 'none', False), ('ubuntu', (4, '4.0'), 'complain', True),
+            ('arch', (4, '4.1'), 'enforce', False)]       # the other axes with a mode builder in the chain
     if ctx.tier == 'thorough':
         base = [(d, av, m, f) for d in lib.DISTS for av in lib.ABIVERS for m in ('none', 'enforce') for f in (False, True)][::3]
     pairs = []
